@@ -17,6 +17,7 @@
 #include <unistd.h>
 
 #include <algorithm>
+#include <thread>
 #include <cerrno>
 #include <cmath>
 #include <cstdint>
@@ -160,6 +161,35 @@ struct Part {
   CaseFn fn;
   double cpuBudgetSec = 60;  // per case CPU budget (first firing: re-run once with 10x)
 };
+
+// A part that runs `perThread` cases of `fn` in each of `nThreads` threads at the same time, every thread on its own objects:
+// independent objects used from different threads must not influence each other (under ThreadSanitizer any shared mutable state
+// in the library shows up as a data race; the oracles inside `fn` judge every result as usual).
+inline Part threaded(const std::string &name, CaseFn fn, int nThreads, int perThread, double budget) {
+  CaseFn wrapped = [fn, nThreads, perThread](uint64_t idx, Rng &rng, CaseResult &r) {
+    if (r.dumpOnly) { r.sample = "{\"what\":\"" + std::to_string(nThreads) + " threads x " + std::to_string(perThread) + " cases on independent objects\"}"; return; }
+    std::vector<CaseResult> res((size_t)nThreads);
+    std::vector<uint64_t> seeds;
+    for (int t = 0; t < nThreads; ++t) seeds.push_back(rng.next());
+    std::vector<std::thread> th;
+    for (int t = 0; t < nThreads; ++t)
+      th.emplace_back([&, t]() {
+        Rng trng(seeds[(size_t)t]);
+        for (int k = 0; k < perThread; ++k) {
+          CaseResult one;
+          try { fn(idx * 1000 + (uint64_t)k, trng, one); } catch (const std::exception &e) { one.fail("harness-uncaught-exception", e.what()); }
+          for (auto &v : one.viol) res[(size_t)t].fail(v.key, v.msg);
+          for (auto &c : one.counters) res[(size_t)t].counters[c.first] += c.second;
+        }
+      });
+    for (auto &x : th) x.join();
+    for (auto &one : res) { for (auto &v : one.viol) r.fail(v.key, "(concurrent run) " + v.msg); for (auto &c : one.counters) r.counters[c.first] += c.second; }
+    r.count("concurrent_cases", (long long)nThreads * perThread);
+    r.nontrivial = true;
+    r.sig = "threads" + std::to_string(nThreads);
+  };
+  return Part{name, wrapped, budget};
+}
 
 // ------------------------------------------------------------------ wire helpers
 inline std::string wesc(const std::string &s) {
